@@ -190,6 +190,7 @@ func (s *Session) Exec2(t []string, num func(int) uint64) (obs, viol string, han
 		}
 		var err error
 		n := len(cs.keys)
+		before := *cs
 		switch t[0] {
 		case "cmin":
 			err = cs.c.Min(s.ctx)
@@ -217,6 +218,8 @@ func (s *Session) Exec2(t []string, num func(int) uint64) (obs, viol string, han
 			}
 		}
 		if err != nil {
+			// a failed call does not move the cursor: the same call, retried, gives the normal result
+			cs.pos, cs.off, cs.set = before.pos, before.off, before.set
 			return errClass(err), "cursor call failed on a healthy store: " + err.Error(), true
 		}
 		k, v, ok := cs.c.Get()
